@@ -12,6 +12,10 @@ fn sets() -> Vec<Vec<u32>> {
   v.push((0..70_000).collect()); // run-heavy, > 65536: two containers
   v.push((0..5000).map(|i| i * 65_537).collect()); // sparse across many containers
   v.push(vec![3, 9, 254, 65536]);
+  // container-count boundaries of the format: one index in each of the first 65535 / all 65536 high-16-bit blocks, and the last block alone
+  v.push((0..65_535u32).map(|i| i << 16).collect());
+  v.push((0..65_536u32).map(|i| (i << 16) | (i & 0xffff)).collect());
+  v.push(vec![u32::MAX - 65_535, u32::MAX]);
   v
 }
 
